@@ -22,7 +22,7 @@ def plan(tier, seed):
         c["overrides"] = {"script_params": SCRIPT}
     # live-exchange double: response timings against order-stream updates (BetfairOrder) ...
     n = 1500 if tier == "quick" else 40000
-    cases += [{"mode": "live_walk", "seed": seed, "idx": i, "cfg": {"n": 1 + i % 3, "async": i % 4 == 3}, "len": 9 + i % 6} for i in range(n)]
+    cases += [{"mode": "live_walk", "seed": seed, "idx": i, "cfg": {"n": 1 + i % 3, "async": i % 4 == 3, "hc": i % 7 == 3, "ext": i % 2 == 1, "sp": (i // 2) % 4 if i % 6 == 5 else 0}, "len": 9 + i % 6} for i in range(n)]
     cases += [{"mode": "betdaq_walk", "seed": seed, "idx": i, "len": 12 + i % 10} for i in range(n // 2)]
     # ... and every fault plan of the C12 enumeration (failure / timeout / lost-then-retried replies)
     from . import c12
@@ -43,12 +43,24 @@ class BetdaqDouble:
         self.next_id = 7000001
         self.seq = 0
         self.fail_next = None
+        self.memo = {}
+        self.remember = False
 
     def _bump(self, o):
         self.seq += 1
         o["sequence_number"] = self.seq
 
     def place_orders(self, order_list):
+        key = tuple(sorted(str(ins["PunterReferenceNumber"]) for ins in order_list))
+        if key in self.memo:
+            # the exchange processed this request earlier (event "exch"); this is its receipt being delivered
+            return self.memo.pop(key)
+        out = self._place(order_list)
+        if self.remember:
+            self.memo[key] = out
+        return out
+
+    def _place(self, order_list):
         out = []
         for ins in order_list:
             ref = ins["PunterReferenceNumber"] if isinstance(ins, dict) else getattr(ins, "PunterReferenceNumber", None)
@@ -148,8 +160,19 @@ def run_betdaq_walk(desc):
                     o = Trade(mid, rng.choice((701, 702)), 0, st).create_betdaq_order(rng.choice(("BACK", "LAY")), BetdaqLimitOrder(rng.choice((2.0, 3.05)), 2.0, 1, 0, 0))
                     if m.place_order(o):
                         orders.append(o)
-                elif k < 0.45 and ex.queue:
+                elif k < 0.38 and ex.queue:
                     ex.run(0)
+                elif k < 0.45 and ex.queue:
+                    # the exchange processes a queued placement now; its receipt reaches flumine later (a poll may overtake it)
+                    fn, a, kw = ex.queue[0]
+                    if fn.__name__ == "execute_place" and not getattr(a[0], "_vf_exchanged", False):
+                        a[0]._vf_exchanged = True
+                        dbl.remember = True
+                        try:
+                            dbl.place_orders(a[0].place_instructions)
+                        finally:
+                            dbl.remember = False
+                        tr.counters["betdaq_exch"] += 1
                 elif k < 0.6:
                     o = rng.choice(orders)
                     if rng.random() < 0.5:
